@@ -178,7 +178,10 @@ func ruleInlineArrayWhole(w *World, r *RuleResult) {
 		out := map[int64]bool{}
 		sr := scan(f)
 		if a := sr.accs[base]; a != nil {
-			if a.variable || a.whole {
+			// at the top level a whole-array access (copy, comparison, escaping element address) settles it; a
+			// callee vouches only with a loop over the words or with the words it names — `inner` handing the
+			// array to math/big on the slow path says nothing about the words the fast path looks at
+			if a.variable || a.whole && depth == 0 {
 				return out, true
 			}
 			for k := range a.consts {
@@ -262,6 +265,12 @@ func ruleInlineArrayWhole(w *World, r *RuleResult) {
 				allOK := idx >= 0 && len(callers) > 0
 				for _, c := range callers {
 					if !allOK {
+						break
+					}
+					// only a sibling helper can vouch for the words this one leaves out (the function it was
+					// split off), not the exported methods that use the pair
+					if po := c.Parent().Object(); po == nil || po.Exported() {
+						allOK = false
 						break
 					}
 					if idx >= len(c.Common().Args) {
